@@ -160,6 +160,120 @@ Fixpoint tokens (fuel : nat) (sys : system) (rest : bytes) : res (list sx) :=
       else r <- tokens f sys (skipn n rest);; Ok (here :: r)
   end.
 
+(* ---------------------------------------------------------------- diagnostics (classification only)
+   These functions do not belong to the model.  They re-run the model's own canon_step /
+   inter_rows on the same data and report WHICH path was taken, so that the driver can decide
+   whether an oracle hit falls into a recorded class of defects:
+     ("adj" this next)   canon merged two spans although this.max <> next.min
+     ("drop" lost via)   the i++ of a merge skipped a span other than the merged one
+     ("openunit" span)   a unit span with an open end
+     ("premerge" this next)  a merge absorbed a bound that carries a user prerelease *)
+Definition s_adj : bytes := [97;100;106]%N.
+Definition s_drop : bytes := [100;114;111;112]%N.
+Definition s_openunit : bytes := [111;112;101;110;117;110;105;116]%N.
+Definition s_premerge : bytes := [112;114;101;109;101;114;103;101]%N.
+
+Fixpoint inner_ev (this : span) (all_tail tail : list span) (pos k : nat) : res (span * nat * list sx) :=
+  match tail with
+  | [] => Ok (this, k, [])
+  | next :: rest =>
+      st <- canon_step this next;;
+      match st with
+      | IBreak => Ok (this, k, [])
+      | IContinue this' skip =>
+          e <- equal_opt (sp_max this) (sp_min next);;
+          let ev1 := if skip && negb e then [SL [SB s_adj; sx_span this; sx_span next]] else [] in
+          let ev2 := if skip && negb (Nat.eqb pos k) then
+                       match nth_error all_tail k with
+                       | Some lost => [SL [SB s_drop; sx_span lost; sx_span next]]
+                       | None => []
+                       end else [] in
+          let ev3 := if skip && (opt_is_prerelease (sp_max this) || opt_is_prerelease (sp_min next)
+                                 || opt_is_prerelease (sp_max next))
+                     then [SL [SB s_premerge; sx_span this; sx_span next]] else [] in
+          r <- inner_ev this' all_tail rest (S pos) (if skip then S k else k);;
+          let '(t, k', evs) := r in Ok (t, k', ev1 ++ ev2 ++ ev3 ++ evs)
+      end
+  end.
+
+Fixpoint loop_ev (fuel : nat) (l : list span) : res (list sx) :=
+  match fuel with
+  | O => Ok []
+  | S f =>
+      match l with
+      | [] => Ok []
+      | this :: tail =>
+          if rank_is_empty (sp_rank this) then loop_ev f tail
+          else
+            r <- inner_ev this tail tail 0 0;;
+            let '(_, k, evs) := r in
+            rest <- loop_ev f (skipn k tail);;
+            Ok (evs ++ rest)
+      end
+  end.
+
+Definition open_units (l : list span) : list sx :=
+  flat_map (fun s => match sp_rank s with
+                     | RUnit => if sp_min_open s || sp_max_open s then [SL [SB s_openunit; sx_span s]] else []
+                     | _ => [] end) l.
+
+(* events of canon on the given input list *)
+Definition canon_events (l : list span) : res (list sx) :=
+  if (length l <=? 1)%nat then Ok (open_units l) else
+  if sys_eqb (sys_of_span l) SMaven then Ok (open_units l) else
+  sorted <- sort_spans l;;
+  evs <- loop_ev (S (length sorted)) sorted;;
+  Ok (open_units l ++ evs).
+
+Definition union_events (a b : set) : res (list sx) := canon_events (set_span a ++ set_span b).
+Definition inter_events (a b : set) : res (list sx) :=
+  match inter_rows (set_span a) (set_span b) with
+  | Ok out => canon_events out
+  | Err _ => Ok []
+  | Panic p => Panic p
+  | OutOfFuel => OutOfFuel
+  end.
+
+Definition no_err {A} (r : res A) (d : A) : res A :=
+  match r with Err _ => Ok d | x => x end.
+
+(* conjunction of comparator texts, each parsed on its own, with the events of every step *)
+Fixpoint conj_events (tbl : table) (sys : system) (cur : option set) (texts : list sx) : res (option set * list sx) :=
+  match texts with
+  | [] => Ok (cur, [])
+  | SB t :: rest =>
+      match parse_constraint (pv_of tbl) sys t with
+      | Ok c =>
+          match cur with
+          | None => r <- conj_events tbl sys (Some (c_set c)) rest;; Ok (fst r, open_units (set_span (c_set c)) ++ snd r)
+          | Some s =>
+              evs <- inter_events s (c_set c);;
+              nxt <- no_err (op_result (set_intersect s (c_set c))) None;;
+              match nxt with
+              | None => Ok (None, evs)
+              | Some s' => r <- conj_events tbl sys (Some s') rest;; Ok (fst r, evs ++ snd r)
+              end
+          end
+      | Err _ => Ok (None, [])
+      | Panic p => Panic p
+      | OutOfFuel => OutOfFuel
+      end
+  | _ :: _ => Panic PExplicit
+  end.
+
+Fixpoint disj_events (tbl : table) (sys : system) (alts : list sx) : res (list span * list sx) :=
+  match alts with
+  | [] => Ok ([], [])
+  | SL texts :: rest =>
+      r <- conj_events tbl sys None texts;;
+      r2 <- disj_events tbl sys rest;;
+      Ok (match fst r with Some s => set_span s | None => [] end ++ fst r2, snd r ++ snd r2)
+  | _ :: _ => Panic PExplicit
+  end.
+
+Definition k_setdiag : bytes := [115;101;116;100;105;97;103]%N.
+Definition k_cdiag : bytes := [99;100;105;97;103]%N.
+
 Definition k_ctok : bytes := [99;116;111;107]%N.
 Definition k_pconstraint : bytes := [112;99;111;110;115;116;114;97;105;110;116]%N.
 Definition k_cmatch : bytes := [99;109;97;116;99;104]%N.
@@ -231,8 +345,9 @@ Definition run_Constraint (kind : bytes) (a : sx) : option sx :=
                                                                      [Some sa; Some sb; u; i; u'; i'];;
                                                         Ok (SL (concat r))
                                                     end) ps;;
+                          ia <- sx_set_info (Some sa);; ib <- sx_set_info (Some sb);;
                           iu <- sx_set_info u;; ii <- sx_set_info i;; iu' <- sx_set_info u';; ii' <- sx_set_info i';;
-                          Ok (SL [SB sym_ok; SL [sx_bool (set_empty sa); sx_bool (set_empty sb)]; iu; ii; iu'; ii'; SL rows]))
+                          Ok (SL [SB sym_ok; ia; ib; iu; ii; iu'; ii'; SL rows]))
               | _, _ => badcase
               end
           | _ => badcase end)
@@ -264,6 +379,33 @@ Definition run_Constraint (kind : bytes) (a : sx) : option sx :=
                                                         Ok (SL [sx_bool oi; ri; sx_bool oe; re])
                                                     end) ps;;
                           Ok (SL [SB sym_ok; SB s1; r; SL rows]))
+              | _, _ => badcase
+              end
+          | _ => badcase end)
+  else if bytes_eqb kind k_setdiag then
+    Some (match a with
+          | SL [SI sysi; SB ta; SB tb_; SL tb] =>
+              match sys_of_index sysi, decode_table tb with
+              | Some sys, Some tbl =>
+                  if negb (is_ascii_edge ta && is_ascii_edge tb_) then oom else
+                  sx_out (ca <- parse_constraint (pv_of tbl) sys ta;;
+                          cb <- parse_constraint (pv_of tbl) sys tb_;;
+                          eu <- union_events (c_set ca) (c_set cb);;
+                          ei <- inter_events (c_set ca) (c_set cb);;
+                          eu' <- union_events (c_set cb) (c_set ca);;
+                          ei' <- inter_events (c_set cb) (c_set ca);;
+                          Ok (SL [SB sym_ok; SL eu; SL ei; SL eu'; SL ei']))
+              | _, _ => badcase
+              end
+          | _ => badcase end)
+  else if bytes_eqb kind k_cdiag then
+    Some (match a with
+          | SL [SI sysi; SL alts; SL tb] =>
+              match sys_of_index sysi, decode_table tb with
+              | Some sys, Some tbl =>
+                  sx_out (r <- disj_events tbl sys alts;;
+                          ev <- canon_events (fst r);;
+                          Ok (SL [SB sym_ok; SL (snd r ++ ev)]))
               | _, _ => badcase
               end
           | _ => badcase end)
